@@ -480,7 +480,7 @@ fn main() {
     for (n, max, burst) in [("(1 h,5,burst 3)", 5, 3), ("(1 h,2,burst 5)", 2, 5), ("(1 h,1,burst 1)", 1, 1), ("(1 h,2,burst 2)", 2, 2), ("(1 h,100,burst 10)", 100, 10)] {
         fams.push(Family { name: "E", cfg_name: n.into(), kind: Kind::Eng(EngineConfig { window: h1, max_requests: max, burst_size: burst }), n_ops: 4 });
     }
-    let depth = run.tier.pick(6, 8);
+    let depth = run.tier.pick(8, 12);
     let budget = Budget::new(Duration::from_secs(run.tier.pick(52, 1700)).saturating_sub(run.elapsed()));
     let replays = AtomicU64::new(0);
     let mut all: Vec<(usize, BfsStats)> = Vec::new();
